@@ -48,15 +48,16 @@ impl Opts {
             ],
         )
     }
-    /// index 0..96*2: derive switches (16) x repr (3) x validate (2); rustfmt always false here
+    /// index 0..96: derive switches (16) x repr (3) x validate (2) with rustfmt off; 96..192: the same with rustfmt on
     pub fn from_index(i: usize) -> Opts {
+        let (i, rustfmt) = if i >= 96 { (i - 96, true) } else { (i, false) };
         Opts {
             bm_vertex: i & 1 != 0,
             bm_host: i & 2 != 0,
             encase: i & 4 != 0,
             serde: i & 8 != 0,
             repr: ((i >> 4) % 3) as u8,
-            rustfmt: false,
+            rustfmt,
             validate: (i >> 4) / 3 % 2 == 1,
         }
     }
